@@ -6,4 +6,11 @@ export GOFLAGS=-mod=mod GOPROXY=off GOSUMDB=off GOTOOLCHAIN=local
 mkdir -p out evidence
 cp /repo/go.sum harness/go.sum
 (cd harness && go build -tags verif -o ../out/vrun ./cmd/vrun)
+tmp=out/sany.$$; mkdir -p $tmp; cp spec/*.tla $tmp/
+for f in $tmp/*.tla; do
+  if ! (cd $tmp && tla-sany "$(basename $f)" > sany.log 2>&1) || grep -q "Parsing or semantic analysis failed\|\*\*\* Errors" $tmp/sany.log; then
+    echo "SANY failed for $f"; tail -20 $tmp/sany.log; rm -rf $tmp; exit 1
+  fi
+done
+rm -rf $tmp
 echo "setup ok"
